@@ -112,6 +112,11 @@ def _indent(s: str, n: int = 4) -> str:
 S['setter-on-nonproperty'] = ('class K:\n    class x: pass\n    @x.setter\n    def x(self, v): pass\n    y = 1\n    @y.setter\n    def y(self, v): pass\n    def z(self): pass\n'
                               '    @z.setter\n    def z(self, v): pass\n    @nope.setter\n    def w(self, v): pass\n    @x.getter\n    def x2(self): pass\n    @z.deleter\n    def z(self): pass\n'
                               '    @property\n    def p(self): pass\n    class p: pass\n    @p.setter\n    def p(self, v): pass')
+_TNS = 'xmlns:t="http://twistedmatrix.com/ns/twisted.web.template/0.1"'
+S['rst-raw-template-directives'] = ('def x():\n    r\'\'\'\n    Doc.\n\n    .. raw:: html\n\n       <t:slot name="x" %s/>\n       <p t:render="zz" %s>a</p>\n       <t:transparent %s>b</t:transparent>\n    \'\'\'\n'
+                                   '__docformat__ = "restructuredtext"\ndef y():\n    r\'\'\'\n    .. raw:: html\n\n       <t:attr name="class" %s>v</t:attr>\n    \'\'\'' % (_TNS, _TNS, _TNS, _TNS))
+S['very-long-names'] = 'class ' + 'C' * 260 + ':\n    "doc"\n    def ' + 'm' * 300 + '(self): pass\n' + ''.join('    ' * i + f'class Nested{i:02d}LongishName:\n' for i in range(30)) + '    ' * 30 + 'pass'
+S['google-attr-odd-type'] = 'class x:\n    """\n    A class.\n\n    Attributes:\n        a (non\u00a0negative number): doc\n        b (some\ufffething, optional): doc\n    """\n    a = 1\n    b = 2\n    c = 3\n    """\n    @type: some\ufffething, optional\n    """'
 S['setter-at-module-level'] = 'x = 1\n@x.setter\ndef x(v): pass\nclass C: pass\n@C.setter\ndef C(v): pass\n@property\ndef q(): pass\n@q.setter\ndef q(v): pass'
 
 # ---- additions after the third round: every field of every docstring syntax on every kind of owner (a field that makes no sense on its
